@@ -2,7 +2,7 @@ package synct
 
 // component s_mdwire (C09): one real RPC per op, with metadata in both directions.
 //
-//	rpc|probe <path> <md> <added> <hapi> <hmd> <tapi> <tmd> <code>   (probe = rpc; only the monitor differs)
+//	rpc|probe|probeae <path> <md> <added> <hapi> <hmd> <tapi> <tmd> <code>   (probe* = rpc; only the monitor differs)
 //
 //	path   u  client Invoke on the unary method U         (header/trailer via grpc.Header/grpc.Trailer)
 //	       b0 client stream on B, handler sends no message (trailers-only unless it sends headers)
@@ -19,6 +19,8 @@ package synct
 // output: st=<ok|code> in=<md the handler saw via FromIncomingContext | ! if it never ran>
 //
 //	hdr=<client Header()> trl=<client Trailer()> h=<ok|code of the header call|-> t=<ok|code|->
+//	ae=<hex of the grpc-accept-encoding value the client transport sends: the compressors registered
+//	    in THIS binary (grpcutil.RegisteredCompressors(), read when the transport is created); `-` = none>
 //
 // In printed metadata the user-agent value "grpc-go/<grpc.Version>" is shown as `5541` ("UA").
 
@@ -29,6 +31,7 @@ import (
 
 	"google.golang.org/grpc"
 	"google.golang.org/grpc/codes"
+	"google.golang.org/grpc/internal/grpcutil"
 	"google.golang.org/grpc/metadata"
 	"google.golang.org/grpc/status"
 )
@@ -82,7 +85,7 @@ func parsePairs(s string) []string {
 }
 
 func (c *mdwireComp) Op(f []string) string {
-	if (f[0] != "rpc" && f[0] != "probe") || len(f) != 9 {
+	if (f[0] != "rpc" && f[0] != "probe" && f[0] != "probeae") || len(f) != 9 {
 		return "bad-op"
 	}
 	path, hapi, tapi := f[1], f[4], f[6]
@@ -164,7 +167,7 @@ func (c *mdwireComp) Op(f []string) string {
 		return "bad-op"
 	}
 	settle()
-	return "st=" + errCode(r.err) + " in=" + seen + " hdr=" + showMD(canonUA(r.header), nil) + " trl=" + showMD(canonUA(r.trailer), nil) + " h=" + hres + " t=" + tres
+	return "st=" + errCode(r.err) + " in=" + seen + " hdr=" + showMD(canonUA(r.header), nil) + " trl=" + showMD(canonUA(r.trailer), nil) + " h=" + hres + " t=" + tres + " ae=" + hx(grpcutil.RegisteredCompressors())
 }
 
 func (c *mdwireComp) Close() { c.e.close() }
